@@ -53,9 +53,11 @@ OPTS = {
     'LEAKY_RELU': 'LeakyReluOptions',
     'PAD': 'PadOptions',
     'SVDF': 'SVDFOptions',
+    'GREATER': 'GreaterOptions',
+    'SELECT': 'SelectOptions',
 }
 
-DT = {'f32': (TT.FLOAT32, np.float32), 'i32': (TT.INT32, np.int32)}
+DT = {'f32': (TT.FLOAT32, np.float32), 'i32': (TT.INT32, np.int32), 'bool': (TT.BOOL, np.bool_)}
 
 CONST_STYLES_SANE = ['normal', 'normal', 'normal', 'positive', 'negative',
                      'outlier']
@@ -502,6 +504,7 @@ def _applicable(g, x, cfg):
     add('FULLY_CONNECTED', 3)
   if r == 2:
     add('SVDF', 2)   # stateful; only when a check lists it explicitly
+  add('GATE', 2)     # GREATER + SELECT (a BOOL tensor); only when listed explicitly
   if r == 4:
     add('CONV_2D', 2)
     add('DEPTHWISE_CONV_2D', 2)
@@ -566,6 +569,16 @@ def _apply(g, op, x, cfg):
     g.node(op, [x, w, bias], [y],
            {'fusedActivationFunction': act(), 'weightsFormat': 0,
             'keepNumDims': bool(keep), 'asymmetricQuantizeInputs': False})
+  elif op == 'GATE':
+    # y = SELECT(GREATER(x, thr), x, c): the mask is a BOOL tensor
+    thr = g.const_f([1], 1, 'GREATER', role='e')
+    g.tensors.append({'name': g._name('act', 'GREATER'), 'shape': list(shape), 'dtype': 'bool',
+                      'kind': 'act', 'rng': None})
+    mask = len(g.tensors) - 1
+    g.node('GREATER', [x, thr], [mask], {})
+    other = g.const_f(shape, 1, 'SELECT', role='e')
+    y = g.new_act(shape, 'SELECT')
+    g.node('SELECT', [mask, x, other], [y], {})
   elif op == 'SVDF':
     # stateful: the last operand is a variable tensor the kernel shifts and
     # rewrites on every invocation (reset_all_variables() zeroes it)
@@ -769,7 +782,7 @@ def _apply(g, op, x, cfg):
     nin = d(st.integers(2, 3))
     ins = [x]
     for _ in range(nin - 1):
-      kind = d(st.sampled_from(['runtime', 'runtime', 'self', 'const']))
+      kind = d(st.sampled_from(['runtime', 'runtime', 'self', 'const', 'const']))
       if kind == 'runtime':
         ins.append(d(st.sampled_from(pool)))
       elif kind == 'self':
